@@ -23,7 +23,9 @@ Record bfacts := mkBFacts {
   b_hdr_fields : nat; b_line_fields : nat;
   b_elem_left_g : list guard; b_elem_right_g : list guard;   (* write_elem *)
   b_elem_index : iexp;                                 (* write_elem index formula (in i16 units) *)
-  b_matrix_index : iexp; b_arg_left : idkind; b_arg_right : idkind   (* reader side: ConnectionMatrix::index, lattice roles *)
+  b_matrix_index : iexp; b_arg_left : idkind; b_arg_right : idkind;  (* reader side: ConnectionMatrix::index, lattice roles *)
+  b_index_len : guard;                                 (* write_u32_array: error iff the number of ids fires this guard *)
+  b_index_checked : bool                               (* build_word_id_table writes every id list through write_u32_array *)
 }.
 
 (* ---------------- connection matrix text ---------------- *)
@@ -116,14 +118,15 @@ Record rec := mkRec {
   r_split_a : list widf; r_split_b : list widf; r_wstruct : list widf;   (* [] = `*` or empty *)
   r_syn_ok : bool;                (* synonym column absent, `*`, or at most MAX_ARRAY_LEN u32 literals *)
   r_splits_concat : bool;         (* surfaces of the split units concatenate to the headword (the compiler never looks) *)
-  r_surface_nul : bool            (* the surface contains U+0000 *)
+  r_surface_nul : bool;           (* the surface contains U+0000 *)
+  r_surface : N                   (* which surface (column 0, after unescaping): equal numbers = byte-identical surfaces *)
 }.
 
 Definition wid := (bool * Z)%type.   (* (user dictionary?, word) *)
 Record entry := mkEntry {
   e_left : Z; e_right : Z; e_cost : Z;
   e_dic_form : option wid; e_split_a : list wid; e_split_b : list wid; e_wstruct : list wid;
-  e_splits_concat : bool; e_surface_nul : bool
+  e_splits_concat : bool; e_surface_nul : bool; e_surface : N
 }.
 
 Definition num16 (f : numf) : option Z := match f with NumLit z => if in_ity I16 z then Some z else None | NumBad => None end.
@@ -150,9 +153,9 @@ Definition parse_record (r : rec) : option entry :=
     | Some l, Some rr, Some c, Some m, Some sa, Some sb, Some ws =>
         if (0 <=? m) && (m <=? 2) && negb ((m =? 0) && negb (match sa, sb with [], [] => true | _, _ => false end)) then
           match r_dic_form r with
-          | None => Some (mkEntry l rr c None sa sb ws (r_splits_concat r) (r_surface_nul r))
+          | None => Some (mkEntry l rr c None sa sb ws (r_splits_concat r) (r_surface_nul r) (r_surface r))
           | Some w => match parse_wid w with
-                      | Some d => Some (mkEntry l rr c (Some d) sa sb ws (r_splits_concat r) (r_surface_nul r))
+                      | Some d => Some (mkEntry l rr c (Some d) sa sb ws (r_splits_concat r) (r_surface_nul r) (r_surface r))
                       | None => None
                       end
           end
@@ -182,6 +185,13 @@ Definition entry_ok (nl nr max0 max1 : Z) (e : entry) : bool :=
   && forallb (wid_ok max0 max1) (e_split_a e) && forallb (wid_ok max0 max1) (e_split_b e)
   && forallb (wid_ok max0 max1) (e_wstruct e).
 
+(* write_index: the ids of all indexed entries with one surface form one array of the word-id table; IndexBuilder writes it
+   through write_u32_array, whose length guard makes compile fail *)
+Definition homographs (p : entry -> bool) (es : list entry) (s : N) : Z :=
+  Z.of_nat (List.length (filter (fun e => p e && N.eqb (e_surface e) s) es)).
+Definition index_err (es : list entry) : bool :=
+  b_index_checked F && existsb (fun e => indexed e && fires (b_index_len F) 0 0 (homographs indexed es (e_surface e))) es.
+
 (* what is offered to the builder: matrix text (system dictionary) or the system dictionary it extends (user dictionary:
    its matrix dimensions and number of words), and the rows of the lexicon *)
 Inductive base := SystemDic (matrix : list cline) | UserDic (sys_nl sys_nr num_system : Z).
@@ -207,6 +217,7 @@ Definition build_with (inp : input) : res dict :=
           let max0 := if user then nsys else n in
           let max1 := if user then n else 0 in
           if forallb (entry_ok nl nr max0 max1) es then
+            if index_err es then Err else
             if existsb indexed es then
               if existsb (fun e => indexed e && e_surface_nul e) es then Panic else Ok (mkDict nl nr st user nsys es)
             else if b_empty_trie_err F then Err else Panic
@@ -284,6 +295,10 @@ Definition entry_limits_ok (e : entry) : bool :=
 Definition dict_valid (d : dict) : bool :=
   forallb (fun e => entry_ids_ok d e && entry_limits_ok e && forallb (ref_exists d) (entry_refs e)) (d_entries d).
 
+(* the arrays of the word-id table respect the format limit too: at most 127 indexed entries share a surface *)
+Definition index_lists_ok (d : dict) : bool :=
+  forallb (fun e => if 0 <=? e_left e then homographs (fun x => 0 <=? e_left x) (d_entries d) (e_surface e) <=? 127 else true) (d_entries d).
+
 (* every store of the matrix text went to the cell it named *)
 Definition stores_in_range (d : dict) : bool := forallb (fun s => (0 <=? fst s) && (fst s <? d_nl d * d_nr d)) (d_stores d).
 
@@ -310,7 +325,9 @@ Definition bfacts_ok (F : bfacts) : bool :=
   && existsb (fun g => rejects_all_neg g NumLeft) (b_hdr_left_g F) && existsb (fun g => rejects_all_neg g NumRight) (b_hdr_right_g F)
   && covers_strict (b_elem_left_g F) NumLeft && covers_strict (b_elem_right_g F) NumRight
   && index_shape_ok (b_elem_index F) && index_shape_ok (b_matrix_index F)
-  && idkind_eqb (b_arg_left F) KRightId && idkind_eqb (b_arg_right F) KLeftId.
+  && idkind_eqb (b_arg_left F) KRightId && idkind_eqb (b_arg_right F) KLeftId
+  && b_index_checked F
+  && (match b_index_len F with mkG CastNone CGt (OConst c) => c <=? 127 | mkG CastNone CGe (OConst c) => c <=? 128 | _ => false end).
 
 (* ---------------- instance regenerated from the sources ---------------- *)
 
@@ -321,7 +338,8 @@ Definition gen_bfacts : bfacts :=
            BuildGuards.conn_empty_input_panics BuildGuards.nul_surface_is_error BuildGuards.empty_trie_is_error BuildGuards.conn_header_left_guards BuildGuards.conn_header_right_guards
            BuildGuards.conn_header_fields BuildGuards.conn_line_fields
            BuildGuards.write_elem_left_guards BuildGuards.write_elem_right_guards ConnIndex.write_elem_index
-           ConnIndex.matrix_index ConnIndex.cost_arg_left ConnIndex.cost_arg_right.
+           ConnIndex.matrix_index ConnIndex.cost_arg_left ConnIndex.cost_arg_right
+           BuildGuards.u32_array_len_guard BuildGuards.word_id_table_through_write_u32_array.
 
 Definition build := build_with gen_bfacts.
 Definition session := run_session gen_bfacts BuildGuards.conn_write_keeps_matrix.
@@ -379,7 +397,7 @@ Definition check_build (inp : input) (impl_status second_status : status) (secon
          | Panic => false
          end
       (* property predicate *)
-      && dict_valid d && stores_in_range d && c1
+      && dict_valid d && stores_in_range d && index_lists_ok d && c1
       && loads_and_analyses
       && second_same
   | [Err; r2] => status_eqb impl_status SErr && status_eqb second_status SErr && second_same
